@@ -1,7 +1,7 @@
 import Hertz.Model.Bytesconv
 /-!
 A short independent multipart/form-data decoder (RFC 2046 §5.1.1 delimiter lines, RFC 7578 §4.2 `Content-Disposition:
-form-data; name="…"; filename="…"`): subset without preamble text, transport padding or quoted-pair escapes.
+form-data; name="…"; filename="…"`): subset without preamble text or transport padding; parameter values are quoted strings with quoted-pair escapes (RFC 2045 / RFC 7230 §3.2.6).
 -/
 namespace Hertz.Spec.Multipart
 open Hertz
@@ -32,7 +32,17 @@ def headerLines : Nat → Bytes → Option (List (Bytes × Bytes) × Bytes)
       let (more, rest') ← headerLines fuel rest
       pure ((k.map lower, v.dropWhile (· == 32)) :: more, rest')
 
-/-- the parameter list of a `Content-Disposition` value: a sequence of `; key="value"` (the value up to the next quote) -/
+/-- a quoted string after its opening quote: the value (quoted pairs `\x` read as `x`) up to the closing quote, and what follows -/
+def quoted : Bytes → Option (Bytes × Bytes)
+  | [] => none
+  | [c] => if c = 34 then some ([], []) else none
+  | c :: d :: t =>
+    if c = 34 then some ([], d :: t)
+    else if c = 92 then (quoted t).map (fun (v, r) => (d :: v, r))
+    else (quoted (d :: t)).map (fun (v, r) => (c :: v, r))
+termination_by structural x => x
+
+/-- the parameter list of a `Content-Disposition` value: a sequence of `; key="value"` (the value a quoted string) -/
 def params : Nat → Bytes → Option (List (Bytes × Bytes))
   | 0, _ => none
   | _ + 1, [] => some []
@@ -40,7 +50,7 @@ def params : Nat → Bytes → Option (List (Bytes × Bytes))
     match c :: s with
     | 59 :: 32 :: rest => do
       let (k, after) ← splitOnce [61, 34] rest
-      let (v, more) ← splitOnce [34] after
+      let (v, more) ← quoted after
       (params fuel more).map ((k, v) :: ·)
     | _ => none
 
